@@ -406,4 +406,186 @@ theorem moveGo_spec {compound : Bool} (src : KvBlk) (htab : Tab src.slots) (extr
       · rw [this.2.2.2, hp']; simp only [List.length_cons]; omega
     · exact absurd e (by simp)
 
+/-! ### `_lx_split_addkv`, middle branch -/
+
+theorem core_freshPow (compound : Bool) (p : Nat) : Core compound (freshPow p) := by
+  have h := (core_fresh compound).2
+  exact { pnum := h.pnum, le32 := h.le32, nodup := h.nodup, mem := h.mem, sorted := h.sorted, wf := h.wf, cache := h.cache }
+
+theorem fill_freshPow (sz rest : Nat) (h : rest + Gen.KVBLK_MAX_NKV_SZ ≤ sz) : Fill (freshPow (powFor sz)).blk 0 rest := by
+  have c1 : Gen.KVBLK_HDRSZ = 3 := rfl
+  have c2 : Gen.KVBLK_MAX_IDX_SZ = 416 := rfl
+  have c3 : Gen.KVBLK_IDXNUM = 32 := rfl
+  have c4 : Gen.KVBLK_MAX_NKV_SZ = 419 := rfl
+  have c5 : Gen.KVBLK_INISZPOW = 9 := rfl
+  have hpow : sz ≤ 2 ^ powFor sz := growPow_spec sz 0 sz (by rw [Nat.zero_add]; exact Nat.le_of_lt Nat.lt_two_pow_self)
+  have hmono : 2 ^ powFor sz ≤ 2 ^ max (powFor sz) Gen.KVBLK_INISZPOW := Nat.pow_le_pow_right (by decide) (Nat.le_max_left _ _)
+  have h9 : 2 ^ 9 ≤ 2 ^ max (powFor sz) Gen.KVBLK_INISZPOW := Nat.pow_le_pow_right (by decide) (by rw [c5]; exact Nat.le_max_right _ _)
+  have h512 : (2 : Nat) ^ 9 = 512 := by decide
+  have hinv : BlkInv (create (max (powFor sz) Gen.KVBLK_INISZPOW)) := blkInv_create _ (by omega) (by decide)
+  have hi : idxBytes (create (max (powFor sz) Gen.KVBLK_INISZPOW)).slots = 2 * Gen.KVBLK_IDXNUM := idxBytes_replicate_free _
+  have hx : (create (max (powFor sz) Gen.KVBLK_INISZPOW)).idxsz = 2 * vn 0 * Gen.KVBLK_IDXNUM := rfl
+  exact { geo := hinv.toGeo
+          idxsz := by show (create _).idxsz ≤ idxBytes (create _).slots; rw [hx, hi, vn_zero]; omega
+          idx := by show idxBytes (create _).slots ≤ _; rw [hi]; omega
+          off := Nat.zero_le _
+          budget := by
+            show Gen.KVBLK_HDRSZ + Gen.KVBLK_MAX_IDX_SZ + 0 + rest ≤ 2 ^ max (powFor sz) Gen.KVBLK_INISZPOW
+            omega }
+
+theorem mem_keys_of_mem_pi (n : Node) (s : Nat) (h : s ∈ n.pi) : slotKey n.blk s ∈ keys n := List.mem_map_of_mem h
+
+/-- stored key of the lookup key -/
+abbrev skOf (compound : Bool) (k : Bytes) (c : Nat) : Bytes := preOf compound c ++ k
+
+theorem recSize_sk_le (compound : Bool) (k : Bytes) (c : Nat) (hc : c < 2 ^ 63) (val : Bytes) :
+    recSize (skOf compound k c) val ≤ vn k.length + k.length + val.length + 20 := by
+  have hl : (preOf compound c).length ≤ 10 := by
+    cases compound with
+    | false => simp [preOf]
+    | true => have := Cmp.enc_length_le10 hc; have e10 : Gen.IW_VNUMBUFSZ = 10 := rfl; rw [e10] at this; simpa [preOf] using this
+  have := vn_le (skOf compound k c).length
+  have := vn_pos k.length
+  simp only [recSize, skOf, List.length_append] at *
+  omega
+
+/-- **the split keeps the invariant**: both halves satisfy `NodeInv`, together they hold the old keys and the new one, and every key
+of the lower half sorts before every key of the upper half -/
+theorem splitMid_spec {compound : Bool} {n : Node} (h : NodeInv compound n) (hfull : n.pnum = Gen.KVBLK_IDXNUM) (idx : Nat)
+    (k : Bytes) (c : Nat) (hk : k ≠ []) (hc : c < 2 ^ 63) (val : Bytes)
+    (hf : Found (fun i => cmpOf compound k c (keyAt n i)) n.pnum (false, idx)) (o nb : Node)
+    (e : splitMid n idx (cmpOf compound k c) (preOf compound c) k val = some (o, nb)) :
+    NodeInv compound o ∧ NodeInv compound nb ∧
+    (∀ x ∈ keys o, x ∈ keys n ∨ x = skOf compound k c) ∧ (∀ x ∈ keys nb, x ∈ keys n ∨ x = skOf compound k c) ∧
+    (∀ x ∈ keys o, ∀ y ∈ keys nb, gtS compound x y) := by
+  have c3 : Gen.KVBLK_IDXNUM = 32 := rfl
+  have hpv : pivot = 17 := rfl
+  have hlen : n.pi.length = 32 := by rw [← h.pnum, hfull, c3]
+  have hklen : (keys n).length = 32 := by simp [keys, hlen]
+  have hsk : WFS compound (skOf compound k c) := by
+    show WFS compound (preOf compound c ++ k); rw [preOf_append]; exact wfs_stored compound k c hk hc
+  have hpre := preOf_length compound c hc
+  have hcmp : ∀ st ∈ keys n, cmpOf compound k c st = cmpS compound st (skOf compound k c) := by
+    intro st hst
+    show _ = cmpS compound st (preOf compound c ++ k)
+    rw [preOf_append]; exact cmpOf_eq compound k c st (h.wf st hst)
+  have hkat : ∀ i, i < 32 → keyAt n i ∈ keys n := fun i hi => by
+    rw [keyAt_eq_getElem n i (by omega)]; exact List.getElem_mem _
+  -- the keys left of `idx` sort before the new key, the keys from `idx` on after it
+  have hleft : ∀ i, i < idx → i < 32 → gtS compound (keyAt n i) (skOf compound k c) := by
+    intro i hi hi2
+    have := hf.left i hi
+    rw [hcmp _ (hkat i hi2)] at this; exact this
+  have hright : ∀ i, idx ≤ i → i < 32 → gtS compound (skOf compound k c) (keyAt n i) := by
+    intro i hi hi2
+    have := hf.miss rfl i hi (by omega)
+    rw [hcmp _ (hkat i hi2)] at this
+    exact (cmpS_flip compound _ _).2.2.1 this
+  have hnew : ∀ st ∈ keys n, cmpOf compound k c st ≠ 0 := by
+    intro st hst
+    obtain ⟨i, hi, ei⟩ := List.getElem_of_mem hst
+    have hi' : i < 32 := by omega
+    have ek : keyAt n i = st := by rw [keyAt_eq_getElem n i (by omega)]; exact ei
+    rw [← ek]
+    by_cases hlt : i < idx
+    · have := hf.left i hlt; omega
+    · have := hf.miss rfl i (by omega) (by omega); omega
+  have htake : ∀ x ∈ (keys n).take pivot, ∃ i, i < pivot ∧ x = keyAt n i := by
+    intro x hx
+    obtain ⟨i, hi, ei⟩ := List.mem_take_iff_getElem.1 hx
+    exact ⟨i, by omega, by rw [keyAt_eq_getElem n i (by omega)]; exact ei.symm⟩
+  have hdrop : ∀ x ∈ (keys n).drop pivot, ∃ i, pivot ≤ i ∧ i < 32 ∧ x = keyAt n i := by
+    intro x hx
+    obtain ⟨i, hi, ei⟩ := List.mem_drop_iff_getElem.1 hx
+    exact ⟨pivot + i, by omega, by omega, by rw [keyAt_eq_getElem n (pivot + i) (by omega)]; exact ei.symm⟩
+  have hhalves : ∀ x ∈ (keys n).take pivot, ∀ y ∈ (keys n).drop pivot, gtS compound x y := by
+    have hs := h.sorted
+    rw [← List.take_append_drop pivot (keys n)] at hs
+    exact (List.pairwise_append.1 hs).2.2
+  -- the new node after the move loop
+  simp only [splitMid] at e
+  split at e
+  · exact absurd e (by simp)
+  · rename_i nb0 hmv
+    have hsz : lenSum n.blk (n.pi.drop pivot) + (if idx > pivot then vn k.length + k.length + val.length else 0) +
+        Gen.KVBLK_MAX_NKV_SZ ≤ splitSz n idx k val := Nat.le_refl _
+    have hfill0 := fill_freshPow (splitSz n idx k val) _ hsz
+    obtain ⟨cnb, fnb, knb, pnb⟩ := moveGo_spec (compound := compound) n.blk h.blk.tab
+      (if idx > pivot then vn k.length + k.length + val.length else 0) (n.pi.drop pivot)
+      (freshPow (powFor (splitSz n idx k val))) nb0 hmv (core_freshPow compound _) hfill0
+      (by show 0 + (n.pi.drop pivot).length ≤ 16; rw [List.length_drop]; omega)
+      (fun s hs => ⟨(h.mem s).1 (List.mem_of_mem_drop hs), h.wf _ (mem_keys_of_mem_pi n s (List.mem_of_mem_drop hs))⟩)
+      (by
+        show (([] : List Nat).map (slotKey _) ++ (n.pi.drop pivot).map (slotKey n.blk)).Pairwise _
+        rw [List.map_nil, List.nil_append, List.map_drop]
+        exact h.sorted.sublist (List.drop_sublist _ _))
+    have knb' : keys nb0 = (keys n).drop pivot := by
+      rw [knb]; show ([] : List Nat).map _ ++ _ = _; rw [List.map_nil, List.nil_append, List.map_drop]; rfl
+    have pnb' : nb0.pnum = 15 := by
+      rw [pnb]; show 0 + (n.pi.drop pivot).length = 15; rw [List.length_drop]; omega
+    obtain ⟨cold, kold, bold, pold, zold, zlt, zfree⟩ := core_cutOld h (by omega)
+    split at e
+    · -- the new record goes to the new node
+      rename_i hgt
+      split at e
+      · rename_i nb' hadd
+        simp only [Option.some.injEq, Prod.mk.injEq] at e
+        obtain ⟨e1, e2⟩ := e
+        have hspec := (fill_step (by rw [pnb'] at fnb; exact fnb) (Nat.le_refl 15) (skOf compound k c) val (by
+          simp only [hgt, if_true]; exact recSize_sk_le compound k c hc val)).1
+        obtain ⟨g', c', p', idx', k'⟩ := core_addkvIns' cnb (preOf compound c) k val hspec (cmpOf compound k c) hsk hpre
+          (fun st hst => hcmp st (by rw [knb'] at hst; exact List.mem_of_mem_drop hst))
+          (fun st hst => hnew st (by rw [knb'] at hst; exact List.mem_of_mem_drop hst)) nb' hadd
+        have ko : keys o = (keys n).take pivot := by rw [← e1]; exact kold
+        have kn : keys nb = (keys nb0).take idx' ++ skOf compound k c :: (keys nb0).drop idx' := by rw [← e2]; exact k'
+        refine ⟨?_, ?_, ?_, ?_, ?_⟩
+        · rw [← e1]
+          exact { toCore := { pnum := cold.pnum, le32 := cold.le32, nodup := cold.nodup, mem := cold.mem, sorted := cold.sorted,
+                              wf := cold.wf, cache := cold.cache }
+                  blk := blkInv_sync bold.toGeo, pos := by show 0 < (cutOld n).pnum; rw [pold]; decide }
+        · rw [← e2]; exact { toCore := core_sync c', blk := blkInv_sync g', pos := p' }
+        · intro x hx; rw [ko] at hx; exact Or.inl (List.mem_of_mem_take hx)
+        · intro x hx
+          rw [kn] at hx
+          rcases (mem_insertAt _ _ _ _).1 hx with ex | hx
+          · exact Or.inr ex
+          · rw [knb'] at hx; exact Or.inl (List.mem_of_mem_drop hx)
+        · intro x hx y hy
+          rw [ko] at hx
+          rw [kn] at hy
+          rcases (mem_insertAt _ _ _ _).1 hy with ey | hy
+          · obtain ⟨i, hi, ei⟩ := htake x hx
+            rw [ey, ei]; exact hleft i (by omega) (by omega)
+          · rw [knb'] at hy; exact hhalves x hx y hy
+      · exact absurd e (by simp)
+    · -- the new record goes to the lower half
+      rename_i hle
+      split at e
+      · rename_i o' hadd
+        simp only [Option.some.injEq, Prod.mk.injEq] at e
+        obtain ⟨e1, e2⟩ := e
+        have hspec := addSpec_weakZ bold (piAt n pivot) zold zlt zfree (skOf compound k c) val
+        obtain ⟨g', c', p', idx', k'⟩ := core_addkvIns' cold (preOf compound c) k val hspec (cmpOf compound k c) hsk hpre
+          (fun st hst => hcmp st (by rw [kold] at hst; exact List.mem_of_mem_take hst))
+          (fun st hst => hnew st (by rw [kold] at hst; exact List.mem_of_mem_take hst)) o' hadd
+        have ko : keys o = (keys (cutOld n)).take idx' ++ skOf compound k c :: (keys (cutOld n)).drop idx' := by rw [← e1]; exact k'
+        have kn : keys nb = (keys n).drop pivot := by rw [← e2]; exact knb'
+        refine ⟨?_, ?_, ?_, ?_, ?_⟩
+        · rw [← e1]; exact { toCore := core_sync c', blk := blkInv_sync g', pos := p' }
+        · rw [← e2]; exact { toCore := core_sync cnb, blk := blkInv_sync fnb.geo, pos := by show 0 < nb0.pnum; omega }
+        · intro x hx
+          rw [ko] at hx
+          rcases (mem_insertAt _ _ _ _).1 hx with ex | hx
+          · exact Or.inr ex
+          · rw [kold] at hx; exact Or.inl (List.mem_of_mem_take hx)
+        · intro x hx; rw [kn] at hx; exact Or.inl (List.mem_of_mem_drop hx)
+        · intro x hx y hy
+          rw [ko] at hx
+          rw [kn] at hy
+          rcases (mem_insertAt _ _ _ _).1 hx with ex | hx
+          · obtain ⟨i, hi, hi2, ei⟩ := hdrop y hy
+            rw [ex, ei]; exact hright i (by omega) hi2
+          · rw [kold] at hx; exact hhalves x hx y hy
+      · exact absurd e (by simp)
+
 end IwModel.KvChain
